@@ -5,7 +5,7 @@ import faultgen
 import syngen
 import xmltree
 
-THEOREMS = ["Syn.parse_print_module", "Syn.parse_print_stmt", "Syn.parse_print_expr", "Syn.parse_print_ty", "Syn.parse_print_args", "Syn.parse_print_elems", "Syn.parse_print_steps", "Syn.parse_print_fields", "Syn.print_norm", "Syn.print_norm_module", "Syn.second_rebuild_identical_module", "Syn.second_rebuild_identical", "Syn.decl_rt", "Syn.all_n"]
+THEOREMS = ["Layout.flat_tree_faithful", "Layout.flat_tree_injective", "Layout.read_encModule", "Layout.read_encStmt", "Layout.read_encExpr", "Layout.read_encTy", "Syn.parse_print_module", "Syn.parse_print_stmt", "Syn.parse_print_expr", "Syn.parse_print_ty", "Syn.parse_print_args", "Syn.parse_print_elems", "Syn.parse_print_steps", "Syn.parse_print_fields", "Syn.print_norm", "Syn.print_norm_module", "Syn.second_rebuild_identical_module", "Syn.second_rebuild_identical", "Syn.decl_rt", "Syn.all_n"]
 
 
 def norm_lean(tree):
@@ -52,6 +52,11 @@ def main():
             mreq.append("synparse\t" + a[3:])
             midx.append(i)
     lean = dict(zip(midx, run_model(mreq)))
+    # the flat layout: the Lean encoder applied to the Lean parser's tree must give the real node array,
+    # variant by variant and node id by node id
+    import c17
+    dump = run_harness(["delta\tdump\t" + esc(s.encode()) for s in srcs])
+    layout = dict(zip(midx, run_model([r.replace("synparse\t", "synlayout\t", 1) for r in mreq])))
     agreeing = 0
     for i, ((cls, src, want, _name), a, b) in enumerate(zip(cases, dx, al)):
         problems = []
@@ -93,6 +98,32 @@ def main():
             problems.append("second-generation tree differs from the %s tree: %s" % ("generator's" if want else "first-generation", first_diff(delta_tree, ref)))
         if want is not None and alpha_tree is not None and alpha_tree != want:
             problems.append("first-generation tree differs from the generator's tree: " + first_diff(alpha_tree, want))
+        # flat layout
+        hd, dd = kv(dump[i])
+        lay = layout.get(i)
+        if hd == "ok" and "tree" in dd and lay and lay.startswith("ok "):
+            real = []
+            for node in c17.split_nodes(bytes.fromhex(dd["tree"][2:]).decode()):
+                tag = re.match(r"[A-Za-z]+", node).group(0)
+                m = c17.NODE_RE.search(node)
+                tag = {"StartPrivateZone": "PrivateZone", "EndlessPrivateZone": "PrivateZone", "FunctionImpl": "Impl"}.get(tag, tag)
+                real.append(tag + ("@" + m.group(1) if m else ""))
+            lay_parts = lay[3:].split(" ")
+            model_nodes = lay_parts[0].split(",")
+            model_roots = [int(x) for x in lay_parts[1].split(",") if x] if len(lay_parts) > 1 else []
+            real_roots = [j for j, x in enumerate(real) if x.split("@")[0] in
+                          ("ConstantDeclaration", "FunctionDeclaration", "StructureDeclaration", "ImportDeclaration")]
+            # the slot of a function without body is patched to NoMoreItems in the real array
+            model_nodes = [("NoMoreItems" if x == "NoMoreItems" else x) for x in model_nodes]
+            if real != model_nodes:
+                k = next((j for j in range(min(len(real), len(model_nodes))) if real[j] != model_nodes[j]), min(len(real), len(model_nodes)))
+                problems.append("flat node array differs from the Lean layout of the tree at node %d: real %s, model %s (lengths %d / %d)"
+                                % (k, real[max(0, k - 2):k + 3], model_nodes[max(0, k - 2):k + 3], len(real), len(model_nodes)))
+            elif model_roots != real_roots:
+                problems.append("declaration roots of the Lean layout %s differ from the declaration nodes of the real array %s"
+                                % (model_roots[:8], real_roots[:8]))
+            else:
+                dist["layout agrees"] += 1
         if lean_tree is None:
             problems.append("the Lean reference parser does not accept the token stream: %s" % (lean_ans or dt[i])[:100])
         elif lean_tree != ref:
